@@ -90,10 +90,23 @@ def install(env):
             return d
 
     base.task = types.SimpleNamespace(LoopingCall=LC)
-    if eng.symbolic:
-        interval.random = types.SimpleNamespace(random=lambda: eng.real('jit', 0, hi_excl=1))
-    else:
-        interval.random = types.SimpleNamespace(random=lambda: eng.real('jit', 0, hi_excl=1))
+    env.jitter_calls = 0
+
+    def jitter():
+        # a fresh value in [0,1) per call; with a shared pool the i-th call of every world
+        # of one path sees the same value (needed when two runs are compared)
+        pool = getattr(env, 'jitter_pool', None)
+        if pool is None:
+            return eng.real('jit', 0, hi_excl=1)
+        i = env.jitter_calls
+        env.jitter_calls += 1
+        while len(pool) <= i:
+            pool.append(eng.real('jit', 0, hi_excl=1))
+        v = pool[i]
+        if isinstance(v, Fraction) and not eng.symbolic:
+            return float(v)
+        return v
+    interval.random = types.SimpleNamespace(random=jitter)
     base.MQTTBaseProtocol.callLater = clock.callLater
 
 
